@@ -78,6 +78,14 @@ Definition ev_reasons (w : wst) (ev : cev) : list nat :=
       else match mine w c with e :: _ => if ures_eqb (classify e) (UErr x) then [] else [3%nat] | [] => [3%nat] end
   | EvRecvRet c (RMsg b) =>
       if existsb (fun e => opt_eqb Z.eqb (ebody e) (Some b)) (mine w c) then [] else [5%nat]
+  (* reason 13: a clean end of stream (io.EOF) is reported only if an envelope that ENDS the stream with an OK status - a
+     trailer, with status OK or none: errorIfDone - was delivered for its id (an envelope with a status but no trailer, a
+     message, a header does not end a stream: what follows it must still be delivered) *)
+  | EvRecvRet c (RErr EEof) =>
+      if existsb (fun e => match final_of e with Some EEof => true | _ => false end) (mine w c) then [] else [13%nat]
+  (* ... and an error STATUS of the peer only if an envelope that ends the stream with one (status + trailer) was *)
+  | EvRecvRet c (RErr (EStatus _)) =>
+      if existsb (fun e => match final_of e with Some (EStatus _) => true | _ => false end) (mine w c) then [] else [13%nat]
   | EvPanic _ => [8%nat]
   | _ => []
   end.
@@ -213,4 +221,8 @@ Proof. vm_compute. reflexivity. Qed.
 
 Example reason_12 : all_reasons (CClient [ANewStream false; ACancel 0; AFailRead]
     [ex_o [EvWrite (mkEnv 1 (Some (MdOk 0)) None None None false); EvOpenRet 0 None] [] 1; ex_o [] [] 1; ex_o [] [] 1]) = [12%nat].
+Proof. vm_compute. reflexivity. Qed.
+
+Example reason_13 : all_reasons (CClient [ANewStream false; ADeliver (mkEnv 1 (Some (MdOk 0)) (Some (mkSt 0 0)) (Some 5) None false); ARecv 0 false]
+    [ex_o [EvWrite (mkEnv 1 (Some (MdOk 0)) None None None false); EvOpenRet 0 None] [] 1; ex_o [] [] 1; ex_o [EvRecvRet 0 (RErr EEof)] [] 1]) = [13%nat].
 Proof. vm_compute. reflexivity. Qed.
